@@ -245,6 +245,102 @@ def _scrutinee_takes(t, cursor):
     return False
 
 
+def _kind(c):
+    return c.split("::")[-1]
+
+
+def _tail_kinds(lits, tail, arms_before, KINDS):
+    """Which variants of the tail are consistent with the branch literals."""
+    S = set(KINDS)
+    for l, w in lits:
+        if l[0] == "call" and l[2] and l[2][0] == tail:
+            name = l[1].split("::")[-1]
+            sets = {"is_empty": {"Empty"}, "is_list": {"Empty", "Cons"}, "is_non_empty_list": {"Cons"}}
+            if name in sets:
+                S &= sets[name] if w else (KINDS - sets[name])
+        if l[0] == "matches" and w and l[1] == tail:
+            cs = tables.pat_ctors(l[2])
+            if cs == ["*"]:
+                S &= KINDS - arms_before.get(id(l[2]), set())
+            else:
+                S &= set(_kind(c) for c in cs)
+    return S
+
+
+def check_is_improper(ctx, lib, rule):
+    """is_improper: a cell whose tail is the empty list ends a proper list (false); a tail that is
+    itself a list cell is examined recursively; any other tail (variable, literal, compound, user
+    term) makes the list improper (true). Display chooses the `[a, b | t]` form by the same test."""
+    fn = streams.getfn(ctx, lib, rule, "crate::lterm::LTerm::is_improper")
+    if not fn:
+        return
+    t = sym.Evaluator(lib, inline=lambda p, f: False).fn_term(fn)
+    key = fn["npath"]
+    site = site_of(fn)
+    eff, m = tables.flatten(t)
+    if not ctx.expect(m and m[0] == "match" and m[1][:2] == ("param", 0), rule, key + "|shape", site, "expected a match on self"):
+        return
+    cons = tables.find_arm(m, "LTermInner::Cons")
+    if not ctx.expect(len(cons) == 1 and cons[0][1] is None, rule, key + "|cons-arm", site, "expected one unguarded arm for list cells"):
+        return
+    tail = ("proj", m[1], cons[0][0][1], 1)
+    body = cons[0][2]
+    adt = lib.adts.get("crate::lterm::LTermInner")
+    KINDS = frozenset(v.get("name") for v in (adt or {}).get("variants", []))
+    if not ctx.expect(len(KINDS) >= 5 and {"Empty", "Cons"} <= KINDS, rule, key + "|variants", site, "cannot enumerate the variants of LTermInner"):
+        return
+    # wildcard arms of an inner match on the tail cover the complement of the explicit arms before them
+    arms_before = {}
+    for mm in sym.subterms(body):
+        if mm[0] == "match" and mm[1] == tail:
+            seen = set()
+            for p_, g_, b_ in mm[2]:
+                cs = tables.pat_ctors(p_)
+                if cs == ["*"]:
+                    arms_before[id(p_)] = set(seen)
+                elif g_ is None:
+                    for c in cs:
+                        seen.add(_kind(c))
+    results = []
+    for s_, lits in tables.occurrences_with_guards(body):
+        val = None
+        if s_[0] == "lit" and "Bool(" in str(s_[1]):
+            val = "true" if "true" in str(s_[1]) else "false"
+        elif s_[0] == "call" and suffix_match(s_[1], "is_improper") and s_[2] and s_[2][0] == tail:
+            val = "rec"
+        if val is None:
+            continue
+        # only results, not conditions: a literal that is itself a branch condition is not a result
+        results.append((val, frozenset(_tail_kinds(lits, tail, arms_before, KINDS))))
+    want = {k: "true" for k in KINDS}
+    want.update({"Empty": "false", "Cons": "rec"})
+    ok = bool(results)
+    seen = set()
+    why = []
+    for val, S in set(results):
+        for k in S:
+            seen.add(k)
+            if want[k] != val:
+                ok = False
+                why.append("tail kind %s yields %s (expected %s)" % (k, val, want[k]))
+    ok = ok and seen == set(KINDS)
+    ctx.expect(ok, rule, key + "|tail-table", site, "is_improper of a cell: tail [] -> false, tail cell -> recurse, any other tail -> true; %s" % ("; ".join(sorted(set(why))) or "cases seen %s" % sorted(seen)))
+    # non-list terms are not improper lists
+    other = [(p_, b_) for p_, g_, b_ in m[2] if "*" in tables.pat_ctors(p_) or any(c.endswith("LTermInner::Empty") for c in tables.pat_ctors(p_))]
+    ctx.expect(all("false" in str(tables.result(b_)) for p_, b_ in other) and bool(other), rule, key + "|non-cells", site, "the empty list and non-list terms are not improper")
+    # Display uses is_improper(self) to choose the bar form
+    fd = streams.getfn(ctx, lib, rule, "<crate::lterm::LTerm as std::fmt::Display>::fmt")
+    if fd:
+        td = sym.Evaluator(lib, inline=lambda p, f: False).fn_term(fd)
+        ifs = [x for x in sym.subterms(td) if x[0] == "if" and x[1][0] == "call" and suffix_match(x[1][1], "is_improper") and x[1][2][0][:2] == ("param", 0)]
+        okd = len(set(ifs)) == 1
+        if okd:
+            bar_then = "|" in "".join(str(l[1]) for l in sym.subterms(ifs[0][2]) if l[0] == "lit")
+            bar_else = ifs[0][3] is not None and "|" in "".join(str(l[1]) for l in sym.subterms(ifs[0][3]) if l[0] == "lit")
+            okd = bar_then and not bar_else
+        ctx.expect(okd, rule, fd["npath"] + "|bar-iff-improper", site_of(fd), "Display must print the ` | tail` form exactly for improper lists (self.is_improper())")
+
+
 def run(ctx, fb, cfg):
     lib = fb.lib
     R = "C21."
@@ -252,3 +348,4 @@ def run(ctx, fb, cfg):
     check_derives(ctx, lib, R + "K10.derives")
     check_constructors(ctx, lib, R + "K6.sibling-constructors")
     check_iterators(ctx, lib, R + "K6.sibling-iterators")
+    check_is_improper(ctx, lib, R + "K6.is-improper")
